@@ -38,7 +38,8 @@ func concurrentPhase(r *mon.Run, addSecret func([]byte, string)) {
 		wg.Add(1)
 		go func(w int) {
 			defer wg.Done()
-			local := 0
+			local, checked := 0, 0
+			defer func() { r.Count("concurrent_payloads_opened_with_own_key", int64(checked)) }()
 			for i := 0; i < perWorker; i++ {
 				var fk []byte
 				var buf bytes.Buffer
@@ -57,10 +58,26 @@ func concurrentPhase(r *mon.Run, addSecret func([]byte, string)) {
 					r.Violate("concurrent-encrypt-error", err.Error(), nil)
 					return
 				}
-				wr.Write([]byte("c"))
+				// a plaintext of its own for every file; some callers are sloppy in
+				// legal ways: an empty Write, Close called a second time
+				pt := []byte(fmt.Sprintf("concurrent plaintext of worker %d file %d", w, i))
+				if i%5 == 0 {
+					wr.Write(nil)
+				}
+				wr.Write(pt)
 				if err := wr.Close(); err != nil {
 					r.Violate("concurrent-encrypt-error", err.Error(), nil)
 					return
+				}
+				if i%3 == 0 {
+					func() {
+						defer func() {
+							if p := recover(); p != nil {
+								r.Violate("concurrent-second-close-panics", fmt.Sprint(p), nil)
+							}
+						}()
+						wr.Close()
+					}()
 				}
 				hdr, rest, err := refage.ParseHeader(buf.Bytes())
 				if err != nil || len(rest) < 16 {
@@ -68,6 +85,16 @@ func concurrentPhase(r *mon.Run, addSecret func([]byte, string)) {
 					return
 				}
 				where := func(role string) string { return fmt.Sprintf("concurrent-file#%d.%d %s", w, i, role) }
+				// the file key was handed to the recording recipient: the payload
+				// must be this file's own plaintext under this file's own key
+				if i%4 == 0 {
+					got, _, derr := refage.StreamDecrypt(refage.StreamKey(fk, rest[:16]), rest[16:])
+					if derr != nil || !bytes.Equal(got, pt) {
+						r.Violate("concurrent-payload-not-own-plaintext", fmt.Sprintf("worker %d file %d: the payload opens to %q (%v), want %q", w, i, mon.Trunc(got, 60), derr, pt), nil)
+						return
+					}
+					checked++
+				}
 				addSecret(fk, where("file-key"))
 				addSecret(rest[:16], where("nonce"))
 				for k, s := range hdr.Stanzas {
